@@ -153,6 +153,27 @@ func (p *c18) Gen(seed uint64, i int, tier string) (any, bool) {
 	if r.Chance(1, 3) {
 		m.From = fmt.Sprintf("%q <sender@origin.example>", strings.TrimSpace(strings.NewReplacer(`"`, "", `\`, "").Replace(genHeaderValue(r))))
 	}
+	if r.Chance(1, 6) {
+		// a field with many short values (the list separator has to be budgeted for, too)
+		n := 8 + r.Intn(30)
+		var vs []string
+		for k := 0; k < n; k++ {
+			vs = append(vs, "kw"[:1+r.Intn(2)]+fmt.Sprint(r.Intn(1+r.Intn(99999))))
+		}
+		m.Headers = append(m.Headers, [2]string{"Keywords", strings.Join(vs, "\x1f")})
+	}
+	if r.Chance(1, 6) {
+		// many recipients with very short addresses
+		n := 6 + r.Intn(30)
+		m.To = nil
+		for k := 0; k < n; k++ {
+			m.To = append(m.To, fmt.Sprintf("%c%d@d.ex", 'a'+byte(k%26), r.Intn(1+r.Intn(999))))
+		}
+	}
+	if r.Chance(1, 6) {
+		// a field the caller has folded itself (CRLF + blank), handed over as preformatted
+		m.Preform = [][2]string{{"X-Pre-Signature", "v=1; a=sim-sha256; c=relaxed;\r\n h=from:to:subject:date;\r\n b=" + strings.Repeat("Ab9", 5+r.Intn(15))}}
+	}
 	m.Enc = sim.Pick(r, []string{"quoted-printable", "base64", "7bit", "8bit"})
 	content := func(text bool) ContentSpec {
 		ln := lengthAround(r, 700)
@@ -472,7 +493,13 @@ func (p *c18) Exec(t *testing.T, scAny any) Outcome {
 	}
 	check("Subject", sc.Msg.Subject)
 	for _, h := range sc.Msg.Headers {
-		check(h[0], h[1])
+		check(h[0], strings.ReplaceAll(h[1], "\x1f", ", "))
+	}
+	for _, h := range sc.Msg.Preform {
+		// written as given: it unfolds to what the caller's own folding unfolds to
+		if got, want := normWS(strings.ReplaceAll(headerValue(top, h[0]), "\r\n", "")), normWS(strings.ReplaceAll(h[1], "\r\n", "")); got != want {
+			out.violate("C18:header-value:preformatted", "preformatted header %s unfolds to %q, but %q was set", h[0], got, want)
+		}
 	}
 	out.Key = fmt.Sprintf("%s|%d|%d", shapeSig(sc.Msg), len(a), len(leaves))
 	out.Nontrivial = true
